@@ -108,9 +108,27 @@ func pathOne(osn, s string) string {
 var relLeaks, relHangs, relAssumed int
 
 const (
-	maxRelLeaks = 4
+	maxRelLeaks = 2
 	maxRelHangs = 6
 )
+
+// one worker goroutine serves the calls; a worker that misses its deadline is abandoned and replaced
+type relReq struct {
+	v    *memfs.MemFS
+	a, c string
+}
+
+var (
+	relReqCh chan relReq
+	relResCh chan string
+	relTimer *time.Timer
+)
+
+func relWorker(req chan relReq, res chan string) {
+	for r := range req {
+		res <- guard(func() string { return showRel(avfs.Rel(r.v, r.a, r.c)) })
+	}
+}
 
 func avfsRel(v *memfs.MemFS, a, c string, oracleLoops bool) string {
 	if relHangs >= maxRelHangs {
@@ -120,23 +138,33 @@ func avfsRel(v *memfs.MemFS, a, c string, oracleLoops bool) string {
 		relAssumed++
 		return "loop"
 	}
-	done := make(chan string, 1)
-	go func() {
-		done <- guard(func() string { return showRel(avfs.Rel(v, a, c)) })
-	}()
+	if relReqCh == nil {
+		relReqCh, relResCh = make(chan relReq), make(chan string, 1)
+		go relWorker(relReqCh, relResCh)
+	}
 	d := 3 * time.Second
 	if oracleLoops {
 		d = 300 * time.Millisecond
 	}
+	relReqCh <- relReq{v, a, c}
+	if relTimer == nil {
+		relTimer = time.NewTimer(d)
+	} else {
+		relTimer.Reset(d)
+	}
 	select {
-	case r := <-done:
+	case r := <-relResCh:
+		if !relTimer.Stop() {
+			<-relTimer.C
+		}
 		return r
-	case <-time.After(d):
+	case <-relTimer.C:
 		if oracleLoops {
 			relLeaks++
 		} else {
 			relHangs++
 		}
+		relReqCh = nil // the worker is stuck in Rel for ever: abandon it
 		return "loop"
 	}
 }
